@@ -38,6 +38,11 @@ def names(thorough):
             continue
         for n in (c, 'x' + c, c + 'x', 'x' + c + 'y'):
             add(n)
+    # a blank next to each special character: word splitting inside make functions and the
+    # `name =` assignment syntax only show with a neighbouring blank (thorough run: 'x  y', 'x =y')
+    for b in SPECIALS:
+        add('x ' + b + 'y')
+        add('x' + b + ' y')
     if thorough:
         for a, b in itertools.product(SPECIALS, repeat=2):
             add('x' + a + b + 'y')
